@@ -39,8 +39,12 @@ impl<S: Runtime + 'static> Loop<'_, S> {
         while super::evaluate_condition(self.env, self.condition_command).await?
             == self.expected_condition
         {
-            self.body.execute(self.env).await?;
-            self.exit_status = self.env.exit_status;
+            let result = self.body.execute(self.env).await;
+            if let Continue(()) | Break(Divert::Continue { count: 0 }) = result {
+                // The body has finished, possibly by the continue built-in.
+                self.exit_status = self.env.exit_status;
+            }
+            result?;
         }
         Continue(())
     }
